@@ -23,7 +23,7 @@ for d in sorted(os.listdir(src)):
         demo = os.path.join(src, d, 'demo_%d.py' % k)
         meta = os.path.join(src, d, 'meta_%d.json' % k)
         if not (os.path.exists(patch) and os.path.exists(demo)): continue
-        sid = '%s-%d' % (pid, k)
+        sid = '%s-%d' % (pid, k + int(os.environ.get('SEED_OFFSET', '0')))
         out = os.path.join(dest, sid)
         if os.path.exists(os.path.join(out, 'meta.json')) and '--force' not in sys.argv: 
             print(sid, 'already verified'); continue
